@@ -283,7 +283,14 @@ fn rotate(
     #[cfg(feature = "verif_hooks")]
     crate::verif::fs_step("rotate.final", &file, Some(Path::new(dst_0.as_ref())))?;
     compression.compress(&file, &dst_0).map_err(|e| {
-        println!("err compressing: {:?}, dst: {:?}", file, dst_0);
+        // `println!` would panic if stdout cannot be written to
+        use std::io::Write;
+        let _ = writeln!(
+            io::stdout(),
+            "err compressing: {:?}, dst: {:?}",
+            file,
+            dst_0
+        );
         e
     })?;
     Ok(())
